@@ -26,7 +26,9 @@ try:
     gen = {'C16Layout.lean': c16_extract.render_lean(LAY)}
 except Exception as exc:  # the tie is broken: keep the committed layout, search for a failing input
     extract_err = '%s: %s' % (type(exc).__name__, exc)
-chk.lean(['VermouthProps.C16', 'VermouthProps.C16Tables'], 'driver_c16', generated=gen)
+chk.lean(['VermouthProps.C16', 'VermouthProps.C16Tables', 'VermouthProps.C16File', 'VermouthProps.C16Gro',
+          'VermouthProps.C16Conect'],
+         'driver_c16', generated=gen)
 if extract_err:
     chk.broken.append(('extract:C16Layout', extract_err))
 chk.trusted.append('harness/c16_extract.py (AST translator of format strings / column tables, cross-checked against '
@@ -427,7 +429,7 @@ def corpus_cases():
         d = json.load(open(path))
         for i, c in enumerate(d['cases']):
             if 'big' in c:
-                if c['big']['total'] > 20000 and not chk.thorough:
+                if (c['big']['total'] > 20000 or c.get('tier') == 'thorough') and not chk.thorough:
                     continue
                 case = big_case(random.Random(c['big'].get('seed', 0)), c['big']['total'], c['big']['nmol'], 'corpus')
             else:
@@ -473,6 +475,13 @@ def field_at_width(case, fmt):
 
 
 beyond = set()
+counts = {}
+
+
+def cnt(key, n=1):
+    counts[key] = counts.get(key, 0) + n
+
+
 records = []   # (case id, op, protocol line, impl canonical, oracle errs, nontrivial, finding, use_oracle)
 
 
@@ -488,7 +497,7 @@ def run_pdb(cid, case):
     if text is None:
         records.append((cid + '-pdbwrite', wline, impl_w, ['write_pdb_string raised: ' + impl_w], False, None, True))
         return
-    path = os.path.join(TMP, 'c.pdb')
+    path = os.path.join(TMP, 'c%d.pdb' % os.getpid())
     with open(path, 'w') as f:
         f.write(text)
     mols, exc = None, None
@@ -504,23 +513,23 @@ def run_pdb(cid, case):
     finding, use = None, True
     if kind == 'hostile':
         use = False
-        chk.count('pdb_outside_domain_model_only')
+        cnt('pdb_outside_domain_model_only')
     elif letterless:
         if 'F-C16-2' in known:
             finding = 'F-C16-2'
         else:
             use = False
-        chk.count('pdb_letterless_name')
+        cnt('pdb_letterless_name')
     nser = sum(len(m['atoms']) + 1 for m in case['mols'])
-    chk.count('pdb_serials_' + ('le9999' if nser <= 9999 else 'le99999' if nser <= 99999 else 'gt99999'))
-    chk.count('pdb_conect_records=%s' % min(text.count('CONECT'), 3))
-    chk.count('pdb_read_' + impl_r.split()[0] + ('' if exc is None else '_' + impl_r.split()[1]))
+    cnt('pdb_serials_' + ('le9999' if nser <= 9999 else 'le99999' if nser <= 99999 else 'gt99999'))
+    cnt('pdb_conect_records=%s' % min(text.count('CONECT'), 3))
+    cnt('pdb_read_' + impl_r.split()[0] + ('' if exc is None else '_' + impl_r.split()[1]))
     records.append((cid + '-pdbwrite', wline, impl_w, [], nontriv, None, True))
     rline = line('pdbread', [], False, text.split('\n'))
     if nser > 99999 and 'CONECT' in text:
         # outside the quantifier of the property (serials do not fit): truncated CONECT serials make the
         # reader merge molecules, which the model does not follow; only "no column shifts" is checked
-        chk.count('pdb_beyond_serial_limit_with_conect')
+        cnt('pdb_beyond_serial_limit_with_conect')
         beyond.add(cid + '-pdbread')
         records.append((cid + '-pdbread', rline, impl_r, [e for e in errs if 'columns long' in e], nontriv, None,
                         False))
@@ -532,7 +541,7 @@ def run_gro(cid, case0):
     case = gro_variant(case0)
     kind = case0['kind']
     wline = line('growrite', enc_system(case))
-    path = os.path.join(TMP, 'c.gro')
+    path = os.path.join(TMP, 'c%d.gro' % os.getpid())
     flines = None
     try:
         write_gro(build_system(case, 1000), path, defer_writing=False)
@@ -557,27 +566,56 @@ def run_gro(cid, case0):
     finding, use = None, True
     if kind == 'hostile':
         use = False
-        chk.count('gro_outside_domain_model_only')
+        cnt('gro_outside_domain_model_only')
     elif gro_letterless(case):
         if 'F-C16-2' in known:
             finding = 'F-C16-2'
         else:
             use = False
-        chk.count('gro_letterless_name')
-    chk.count('gro_read_' + impl_r.split()[0] + ('' if exc is None else '_' + impl_r.split()[1]))
+        cnt('gro_letterless_name')
+    cnt('gro_read_' + impl_r.split()[0] + ('' if exc is None else '_' + impl_r.split()[1]))
     records.append((cid + '-growrite', wline, impl_w, [], nontriv, None, True))
     rline = line('groread', [], False, flines)
     records.append((cid + '-groread', rline, impl_r, errs if use or finding else [], nontriv, finding, use))
 
 
-for cid, case in cases:
-    chk.count('kind_' + case['kind'])
-    chk.count('n_molecules=%d' % min(len(case['mols']), 5))
+def process(job):
+    """one case through both formats; run in a forked worker: returns what it would have appended"""
+    cid, case = job
+    del records[:]
+    counts.clear()
+    beyond.clear()
+    err = None
+    cnt('kind_' + case['kind'])
+    cnt('n_molecules=%d' % min(len(case['mols']), 5))
     try:
         run_pdb(cid, case)
         run_gro(cid, case)
     except Exception:
-        chk.broken.append(('harness:' + cid, tail(traceback.format_exc())))
+        err = ('harness:' + cid, tail(traceback.format_exc()))
+    return list(records), dict(counts), set(beyond), err
+
+
+# the real code is run in forked workers (the cases are independent; results are collected in case
+# order, so the run is deterministic); the largest systems are started first
+import multiprocessing
+nproc = max(1, min(4 if chk.thorough else 8, (os.cpu_count() or 1)))
+order = sorted(range(len(cases)), key=lambda i: -sum(len(m['atoms']) for m in cases[i][1]['mols']))
+all_records, all_beyond = [], set()
+if nproc > 1:
+    with multiprocessing.get_context('fork').Pool(nproc) as pool:
+        handles = {i: pool.apply_async(process, (cases[i],)) for i in order}
+        results = [handles[i].get() for i in range(len(cases))]
+else:
+    results = [process(c) for c in cases]
+for recs, cts, bey, err in results:
+    all_records.extend(recs)
+    all_beyond |= bey
+    for k, v in cts.items():
+        chk.count(k, v)
+    if err:
+        chk.broken.append(err)
+records, beyond = all_records, all_beyond
 
 lines = [r[1] for r in records]
 models = chk.drv.ask(lines) if chk.lean_ok else [None] * len(lines)
